@@ -1,2 +1,267 @@
-(* C15 (stub while the correspondence is brought up; replaced by the theorems) *)
-From Coq Require Import List.
+(* C15: approximate aggregations stay within their stated bounds.
+   ONLY the property theorems (each closed by `exact`) and their non-vacuity examples.
+
+   t-digest (src/combiners/quantiles.rs): the theorems are about the EXACT instance of the model
+   (Combiners/TDigest.v: rationals + {+inf, -inf, NaN}); `prog` = every way of producing a digest
+   through new / add / add_weighted / merge / compress, i.e. any input order, duplication,
+   partitioning and merge tree; `inputs p` = the finite (value, weight) pairs fed in;
+   `wf_prog p` = explicit weights are >= 1 (TDigest::add uses 1). The float instance of the same
+   model text is tied to the Rust code bit for bit by the correspondence check; IEEE rounding is
+   outside these theorems.
+   KMV (src/combiners/distinct.rs): ranks are any type with a Boolean strict total order;
+   `aexpr` (Combiners/Lawful.v) = every accumulator expression create / add_input / merge /
+   build_from_group. *)
+From Coq Require Import List ZArith QArith Bool Lia Sorted.
+From IB Require Import Combiners.Lawful Combiners.TDigest Combiners.KMV.
+From IB Require Import Proofs.TDigestBase Proofs.TDigestInv Proofs.TDigestQuantile
+                       Proofs.TDigestWitness Proofs.KMVProofs.
+Import ListNotations.
+Close Scope Q_scope.
+
+(* ================================================================ t-digest *)
+
+(* Quantile estimates lie between the smallest and the largest finite input (which are exactly
+   the digest's min and max), for every q (also NaN, infinite, outside [0,1]). *)
+Theorem c15_quantile_in_range :
+  forall (p : prog X) (q : X), wf_prog p -> inputs p <> [] ->
+    exists lo hi x,
+      d_min (run xarith p) = Fin lo /\ d_max (run xarith p) = Fin hi /\
+      is_lo lo (inputs p) /\ is_hi hi (inputs p) /\
+      td_quantile xarith (run xarith p) q = Fin x /\ (lo <= x <= hi)%Q.
+Proof. exact prog_quantile_in_range. Qed.
+
+Definition ex_prog : prog X :=
+  PMerge (PAdd (PAdd (PAdd (PNew (Fin 100)) (Fin 5)) PInf) (Fin (-3)))
+         (PCompress (PAdd (PAdd (PNew (Fin 20)) (Fin 2)) NaN)).
+
+Example c15_quantile_in_range_ex :
+  wf_prog ex_prog /\ inputs ex_prog <> [] /\
+  xeqb (td_quantile xarith (run xarith ex_prog) (Fin (1 # 2))) (Fin 1) = true /\
+  xeqb (d_min (run xarith ex_prog)) (Fin (-3)) = true /\
+  xeqb (d_max (run xarith ex_prog)) (Fin 5) = true.
+Proof.
+  split; [vm_compute; tauto|]. split; [vm_compute; discriminate|].
+  repeat split; vm_compute; reflexivity.
+Qed.
+
+(* q <= 0 (q is clamped to [0,1]): exactly the minimum *)
+Theorem c15_quantile_0 :
+  forall (p : prog X) (q : X), wf_prog p -> inputs p <> [] -> xleb q (Fin 0) = true ->
+    exists lo, is_lo lo (inputs p) /\ td_quantile xarith (run xarith p) q = Fin lo.
+Proof. exact prog_quantile_0. Qed.
+
+Example c15_quantile_0_ex :
+  xleb NInf (Fin 0) = true /\
+  xeqb (td_quantile xarith (run xarith ex_prog) NInf) (Fin (-3)) = true /\
+  xeqb (td_quantile xarith (run xarith ex_prog) (Fin 0)) (Fin (-3)) = true.
+Proof. repeat split; vm_compute; reflexivity. Qed.
+
+(* q >= 1: the maximum (as a rational number) *)
+Theorem c15_quantile_1 :
+  forall (p : prog X) (q : X), wf_prog p -> inputs p <> [] -> xleb (Fin 1) q = true ->
+    exists hi x, is_hi hi (inputs p) /\
+      td_quantile xarith (run xarith p) q = Fin x /\ (x == hi)%Q.
+Proof. exact prog_quantile_1. Qed.
+
+Example c15_quantile_1_ex :
+  xleb (Fin 1) (Fin (3 # 2)) = true /\
+  xeqb (td_quantile xarith (run xarith ex_prog) (Fin (3 # 2))) (Fin 5) = true /\
+  xeqb (td_quantile xarith (run xarith ex_prog) (Fin 1)) (Fin 5) = true.
+Proof. repeat split; vm_compute; reflexivity. Qed.
+
+(* NaN exactly when no finite value went in *)
+Theorem c15_quantile_nan_iff_empty :
+  forall (p : prog X) (q : X), wf_prog p ->
+    (td_quantile xarith (run xarith p) q = NaN <-> inputs p = []).
+Proof. exact prog_quantile_nan_iff. Qed.
+
+Example c15_quantile_nan_iff_empty_ex :
+  td_quantile xarith (run xarith (PAdd (PAdd (PNew (Fin 100)) NaN) PInf)) (Fin (1 # 2)) = NaN /\
+  inputs (PAdd (PAdd (PNew (Fin 100)) NaN) PInf) = [].
+Proof. split; reflexivity. Qed.
+
+(* what the combiner returns (ApproxQuantiles::finish = compress once more, then query), for a
+   digest produced by any partitioning / merge tree *)
+Theorem c15_finish_in_range :
+  forall (p : prog X) (qs : list X) (x : X), wf_prog p -> inputs p <> [] ->
+    In x (aq_finish xarith qs (run xarith p)) ->
+    exists lo hi v, is_lo lo (inputs p) /\ is_hi hi (inputs p) /\ x = Fin v /\ (lo <= v <= hi)%Q.
+Proof. exact prog_finish_in_range. Qed.
+
+Example c15_finish_in_range_ex :
+  match aq_finish xarith [Fin (1 # 4); Fin (3 # 4)] (run xarith ex_prog) with
+  | [a; b] => xeqb a (Fin (3 # 4)) && xeqb b (Fin (11 # 4))
+  | _ => false
+  end = true.
+Proof. vm_compute. reflexivity. Qed.
+
+Theorem c15_finish_nan_iff_empty :
+  forall (p : prog X) (qs : list X) (x : X), wf_prog p ->
+    In x (aq_finish xarith qs (run xarith p)) -> (x = NaN <-> inputs p = []).
+Proof. exact prog_finish_nan_iff. Qed.
+
+Example c15_finish_nan_iff_empty_ex :
+  aq_finish xarith [Fin 0; Fin 1] (run xarith (PMerge (PNew (Fin 10)) (PAdd (PNew (Fin 10)) NInf)))
+  = [NaN; NaN].
+Proof. reflexivity. Qed.
+
+(* non-finite inputs leave the digest unchanged -- in EVERY arithmetic instance (also the float one) *)
+Theorem c15_nonfinite_ignored :
+  forall (T : Type) (A : arith T) (d : digest T) (v w : T),
+    a_is_finite A v = false -> td_add_weighted A d v w = d.
+Proof. exact nonfinite_ignored. Qed.
+
+Example c15_nonfinite_ignored_ex :
+  xfinite NaN = false /\ xfinite PInf = false /\ xfinite NInf = false /\
+  run xarith (PAdd (PAdd (PAdd (PNew (Fin 100)) (Fin 7)) NaN) NInf)
+  = run xarith (PAdd (PNew (Fin 100)) (Fin 7)).
+Proof. repeat split. Qed.
+
+(* compress: centroids sorted by mean, total weight preserved (= sum of the input weights),
+   every mean inside [min, max], every weight >= 1 *)
+Theorem c15_compress_invariants :
+  forall (p : prog X), wf_prog p -> inputs p <> [] ->
+    exists lo hi, is_lo lo (inputs p) /\ is_hi hi (inputs p) /\
+      let cs := d_cents (td_compress xarith (run xarith p)) in
+      StronglySorted mle cs /\ (sumw cs == wsum (inputs p))%Q /\ Forall (fin_c lo hi) cs.
+Proof. exact prog_compress_invariants. Qed.
+
+Example c15_compress_invariants_ex :
+  map (fun c => (Qred (mean_q c), Qred (weight_q c)))
+      (d_cents (td_compress xarith (run xarith w_prog)))
+  = [(1, 1); (7 # 2, 4); (15 # 2, 4); (10, 1)]%Q.
+Proof. vm_compute. reflexivity. Qed.
+
+(* the digest's count is the sum of the weights of the finite inputs (= their number for add) *)
+Theorem c15_count_exact :
+  forall (p : prog X), wf_prog p ->
+    exists W, td_count (run xarith p) = Fin W /\ (W == wsum (inputs p))%Q.
+Proof. exact prog_count_exact. Qed.
+
+Example c15_count_exact_ex :
+  xeqb (td_count (run xarith ex_prog)) (Fin 3) = true /\ (wsum (inputs ex_prog) == 3)%Q.
+Proof. split; vm_compute; reflexivity. Qed.
+
+(* OPEN KNOWN FINDING C15-quantile-not-monotone: the estimate is NOT monotone in q.
+   Witness: values 1..10, compression 100: quantile(0.10) = 2 but quantile(0.11) = 1.2. *)
+Theorem c15_quantile_monotone_refuted :
+  exists (p : prog X) (q1 q2 : Q),
+    wf_prog p /\ (q1 < q2)%Q /\
+    xltb (td_quantile xarith (run xarith p) (Fin q2))
+         (td_quantile xarith (run xarith p) (Fin q1)) = true.
+Proof. exact monotone_refuted. Qed.
+
+Example c15_quantile_monotone_refuted_ex :
+  xeqb (td_quantile xarith (run xarith w_prog) (Fin (1 # 10))) (Fin 2) = true /\
+  xeqb (td_quantile xarith (run xarith w_prog) (Fin (11 # 100))) (Fin (6 # 5)) = true.
+Proof. exact w_direct. Qed.
+
+(* outside the finding's class (fewer than 2 centroids) the estimate does not depend on q, in
+   every arithmetic instance *)
+Theorem c15_quantile_monotone_outside_class :
+  forall (T : Type) (A : arith T) (d : digest T) (q1 q2 : T),
+    (length (d_cents d) <= 1)%nat -> td_quantile A d q1 = td_quantile A d q2.
+Proof. exact quantile_const_single. Qed.
+
+Example c15_quantile_monotone_outside_class_ex :
+  (length (d_cents (run xarith (PAdd (PNew (Fin 100)) (Fin 42)))) <= 1)%nat /\
+  td_quantile xarith (run xarith (PAdd (PNew (Fin 100)) (Fin 42))) (Fin (1 # 3)) = Fin 42.
+Proof. split; [vm_compute; lia | vm_compute; reflexivity]. Qed.
+
+(* ================================================================ KMV *)
+Section KMVStatements.
+  Variable R : Type.
+  Variables ltb eqb : R -> R -> bool.
+  Hypothesis ltb_irrefl : forall a, ltb a a = false.
+  Hypothesis ltb_trans : forall a b c, ltb a b = true -> ltb b c = true -> ltb a c = true.
+  Hypothesis ltb_total : forall a b, ltb a b = false -> ltb b a = false -> a = b.
+  Hypothesis eqb_eq : forall a b, eqb a b = true <-> a = b.
+
+  (* an accumulator obtained in ANY way holds exactly the k' = max k 4 smallest distinct ranks
+     of everything that went in *)
+  Theorem c15_kmv_represents :
+    forall (k : nat) (e : aexpr R),
+      k_items (aeval (kmv_combiner ltb eqb k) e)
+      = ksmallest ltb eqb (Nat.max k 4) (avalues e).
+  Proof. exact (kmv_items ltb eqb ltb_irrefl ltb_trans ltb_total eqb_eq). Qed.
+
+  (* `usort` lists every distinct rank once: its length is the number of distinct ranks *)
+  Theorem c15_kmv_distinct :
+    forall l : list R, NoDup (usort ltb eqb l) /\ forall x, In x (usort ltb eqb l) <-> In x l.
+  Proof. exact (usort_distinct ltb eqb ltb_irrefl ltb_trans ltb_total eqb_eq). Qed.
+
+  (* fewer distinct ranks than the sketch size: the count is exact *)
+  Theorem c15_kmv_exact_below_k :
+    forall (k : nat) (e : aexpr R),
+      length (usort ltb eqb (avalues e)) < Nat.max k 4 ->
+      kmv_finish (aeval (kmv_combiner ltb eqb k) e)
+      = KCount (length (usort ltb eqb (avalues e))).
+  Proof. exact (kmv_exact_below_k ltb eqb ltb_irrefl ltb_trans ltb_total eqb_eq). Qed.
+
+  (* the result depends on the SET of ranks only: not on duplicates, order, partitioning, merge
+     order, or the use of build_from_group *)
+  Theorem c15_kmv_partition_independent :
+    forall (k : nat) (e1 e2 : aexpr R),
+      (forall x, In x (avalues e1) <-> In x (avalues e2)) ->
+      kmv_finish (aeval (kmv_combiner ltb eqb k) e1)
+      = kmv_finish (aeval (kmv_combiner ltb eqb k) e2).
+  Proof. exact (kmv_partition_independent ltb eqb ltb_irrefl ltb_trans ltb_total eqb_eq). Qed.
+
+  (* and in general finish = (k'-1)/(k'-th smallest distinct rank) or the exact count *)
+  Theorem c15_kmv_finish_spec :
+    forall (k : nat) (e : aexpr R),
+      kmv_finish (aeval (kmv_combiner ltb eqb k) e)
+      = kmv_spec ltb eqb (Nat.max k 4) (avalues e).
+  Proof. exact (kmv_finish_spec ltb eqb ltb_irrefl ltb_trans ltb_total eqb_eq). Qed.
+
+  (* KMV is a lawful (mergeable) combiner in the sense of Combiners/Lawful.v *)
+  Theorem c15_kmv_lawful :
+    forall k : nat,
+      lawful (kmv_combiner ltb eqb k) (krep ltb eqb (Nat.max k 4))
+             (fun m o => o = kmv_spec ltb eqb (Nat.max k 4) m).
+  Proof. exact (kmv_lawful ltb eqb ltb_irrefl ltb_trans ltb_total eqb_eq). Qed.
+End KMVStatements.
+
+(* non-vacuity: integers as ranks *)
+Lemma zltb_irrefl : forall a : Z, Z.ltb a a = false.
+Proof. intro a. apply Z.ltb_irrefl. Qed.
+Lemma zltb_trans : forall a b c : Z, Z.ltb a b = true -> Z.ltb b c = true -> Z.ltb a c = true.
+Proof. intros a b c H1 H2. apply Z.ltb_lt in H1, H2. apply Z.ltb_lt. lia. Qed.
+Lemma zltb_total : forall a b : Z, Z.ltb a b = false -> Z.ltb b a = false -> a = b.
+Proof. intros a b H1 H2. apply Z.ltb_ge in H1, H2. lia. Qed.
+
+Definition ex_e1 : aexpr Z :=
+  (AMerge (AAdd (AAdd (AAdd ACreate 9) 2) 9) (AMerge (ABuild [7; 2; 5; 1; 7]) (AAdd ACreate 3)))%Z.
+Definition ex_e2 : aexpr Z := ABuild [1; 2; 3; 5; 7; 9]%Z.
+
+Example c15_kmv_represents_ex :
+  k_items (aeval (kmv_combiner Z.ltb Z.eqb 4) ex_e1) = [1; 2; 3; 5]%Z /\
+  ksmallest Z.ltb Z.eqb 4 (avalues ex_e1) = [1; 2; 3; 5]%Z.
+Proof. split; reflexivity. Qed.
+
+Example c15_kmv_distinct_ex : usort Z.ltb Z.eqb [9; 2; 9; 7; 2]%Z = [2; 7; 9]%Z.
+Proof. reflexivity. Qed.
+
+Example c15_kmv_exact_below_k_ex :
+  length (usort Z.ltb Z.eqb (avalues ex_e1)) < Nat.max 7 4 /\
+  kmv_finish (aeval (kmv_combiner Z.ltb Z.eqb 7) ex_e1) = KCount 6.
+Proof. split; [cbn; lia | reflexivity]. Qed.
+
+Example c15_kmv_partition_independent_ex :
+  (forall x, In x (avalues ex_e1) <-> In x (avalues ex_e2)) /\
+  kmv_finish (aeval (kmv_combiner Z.ltb Z.eqb 4) ex_e1) = KEstimate 4 5%Z /\
+  kmv_finish (aeval (kmv_combiner Z.ltb Z.eqb 4) ex_e2) = KEstimate 4 5%Z.
+Proof.
+  split; [|split; reflexivity].
+  intro x. cbn. intuition lia.
+Qed.
+
+Example c15_kmv_finish_spec_ex :
+  kmv_spec Z.ltb Z.eqb 4 (avalues ex_e1) = KEstimate 4 5%Z /\
+  kmv_spec Z.ltb Z.eqb 8 (avalues ex_e1) = KCount 6.
+Proof. split; reflexivity. Qed.
+
+Example c15_kmv_lawful_ex :
+  lawful (kmv_combiner Z.ltb Z.eqb 2) (krep Z.ltb Z.eqb 4)
+         (fun m o => o = kmv_spec Z.ltb Z.eqb 4 m).
+Proof. exact (c15_kmv_lawful Z Z.ltb Z.eqb zltb_irrefl zltb_trans zltb_total Z.eqb_eq 2). Qed.
